@@ -18,6 +18,9 @@ THEOREMS = [
     "VK.C06_top_tier_smith",
     "VK.C06_condorcet_iff",
     "VK.C06_dominating_sets_elects_top",
+    "VK.sum_before_half",
+    "VK.fill_one",
+    "VK.C06_fill_correct",
 ]
 RULE = ("cases = profile of untied ranked ballots (2-6 candidates, partial ballots, rational weights, zero-vote "
         "candidates; 35% engineered: Condorcet cycles of length 3-5, nested cycles, exact pairwise ties) -> "
